@@ -12,24 +12,24 @@ CLAIMS = {
  "C20": ("proof", "Discharged obligations on the real code of pkg/utils/nets and pkg/ipam/floatingip: IPToInt/IntToIP are inverse (byte/shift arithmetic exact, "
          "real encoding/binary bodies inlined), IPRange.Size/Contains, SparseSubnet.Size = number of addresses for sorted ranges not spanning 2^32 (loop invariant over a "
          "recursive count), fipCheck accepts only ranges inside the subnet, sorted, disjoint and unmergeable over the integers, FloatingIPPool.Contains = membership, "
-         "walkIPRanges terminates (measure over the integers), pool decoding rejects a null nodeSubnets entry. Genuine defects found by these obligations were repaired (fix: commits, known_findings.txt).",
-         "JSON layer (encoding/json) and net.ParseIP/IPNet.Contains are assumed (uninterpreted with stated facts); pool-level round trip through JSON and the ensureIPAMConf ordering are not claimed."),
+         "walkIPRanges terminates (measure over the integers), pool decoding rejects a null nodeSubnets entry, ConfigurePool rejects a null pool, ensureIPAMConf records exactly the applied configuration text. Genuine defects found by these obligations were repaired (fix: commits, known_findings.txt).",
+         "JSON layer (encoding/json) and net.ParseIP/IPNet.Contains are assumed (uninterpreted with stated facts; a decoded container may hold nil elements); pool-level round trip through JSON is not claimed. ensureIPAMConf: a rejected text is never recorded as applied, an applied one always is (relative to the proved frame of ConfigurePool)."),
  "C11": ("proof", "Paging arithmetic of pkg/utils/page proved for all page/size/len in the documented ranges (start/end formulae, clamping of ParsePage/ParseSize); crdIpam.ReleaseIPs and the plugin's releaseIP release exactly the (ip,key) pairs that match. "
          "The key grammar part (injectivity, decode(encode)) is not under contract.", "strconv.Atoi assumed deterministic; sort.Sort not modelled."),
  "C01": ("proof", "Every table-writing method of crdIpam preserves the table invariant (entries non-nil, filed under their own IP string, pool and its node-subnet set non-nil, allocated/unallocated disjoint, free entries blank) "
          "and has a whole-view postcondition: owner changes only for an IP that was free or whose key equals the key argument; failure leaves tables unchanged. "
          "Methods: Release, ReleaseIPs, UpdateAttr, AllocateSpecificIP, AllocateInSubnet, AllocateInSubnetWithKey, AllocateInSubnetsAndIPRange, ReserveIP, handleFIPAssign/Unassign, ConfigurePool (table construction); "
-         "plugin layer: unbind, unbindDpPod/unbindNoneDpPod, releaseIP, one resync pass touch only entries of the pod's own key.",
-         "Store wrappers are verified against the ASSUMED behaviour of the generated client (create fails if the object exists). Interleavings at API-call granularity, histories and restarts are not decided by contracts. allocateIP (bind) is not part of this claim."),
- "C02": ("proof", "AllocateInSubnetWithKey re-keys exactly one entry keyed with the old key whose pool lists the subnet, the most recently updated one, and changes nothing else; ReserveIP re-keys exactly the entries of the old key; First/ByKeyAndIPRanges report only (and, without ranges, all) entries of the key. Proved for all table states.",
+         "plugin layer: allocateIP (bind), unbind, unbindDpPod/unbindNoneDpPod, releaseIP, one resync pass touch only entries of the pod's own key; allocateIP never frees or re-keys an existing object.",
+         "Store wrappers are verified against the ASSUMED behaviour of the generated client (create fails if the object exists). Interleavings at API-call granularity, histories and restarts are not decided by contracts."),
+ "C02": ("proof", "AllocateInSubnetWithKey re-keys exactly one entry keyed with the old key whose pool lists the subnet, the most recently updated one, and changes nothing else; ReserveIP re-keys exactly the entries of the old key; First/ByKeyAndIPRanges report only (and, without ranges, all) entries of the key; allocateDuringFilter: when a reserved IP of the pool/deployment exists it is re-keyed and no new object is created. Proved for all table states.",
          "Plugin-level stickiness (bind choosing the reserved IP) not under contract; histories not decided."),
  "C04": ("proof", "crdIpam.Release/ReleaseIPs/UpdateAttr act only on (ip,key) matches and leave every other entry unchanged; plugin-level Release (API path), unbind (event path) and one resync pass: if the API server would report the pod alive with the stored uid, nothing in the store or at the provider changes; an event of another incarnation (uid) of the pod name leaves the live pod's IP alone (defect repaired, fix: 1c2c469); "
-         "podRunning reports running for every pod the API server reports alive; entries of other keys are never touched.",
+         "podRunning reports running for every pod the API server reports alive; entries of other keys are never touched; allocateIP (bind) changes the stored uid of an existing IP only if it was empty (uid guard) and only under the pod's own key.",
          "syncIP and ConfigurePool-vs-live-pod not under contract. API-server truth is ghost state (PodExists/PodUIDOf/PodFinished) with assumed lister/client contracts. Interleavings not decided."),
- "C03": ("proof", "parseReleasePolicy proved against the documented decision table; podRunning/runningAndUidMatch: 'not running' is concluded only from not-found, uid mismatch or a finished phase and any other error counts as running; reserveIP never deletes an object, releaseIP frees only entries of the given key; unbindDpPod/unbindNoneDpPod: policy never keeps the IP of deployment and statefulset pods.",
-         "allocateIP uid guard not under contract; histories not decided."),
- "C10": ("proof", "Plugin-level Release, unbind and the resync pass: whenever they free an IP whose stored node is non-empty and a cloud provider is configured, the provider has acknowledged the unassign of that IP before (ghost ProvNode), and only that IP is unassigned; cloudProviderAssignIP/UnAssignIP report success only for an acknowledged reply.",
-         "Cloud provider behaviour assumed (pkg/ipam/cloudprovider/zz_contracts_verif.go). allocateIP assign ordering not under contract."),
+ "C03": ("proof", "parseReleasePolicy proved against the documented decision table; podRunning/runningAndUidMatch: 'not running' is concluded only from not-found, uid mismatch or a finished phase and any other error counts as running; reserveIP never deletes an object, releaseIP frees only entries of the given key; unbindDpPod/unbindNoneDpPod: policy never keeps the IP of deployment and statefulset pods; allocateIP's uid guard (see C04).",
+         "histories not decided; the guard is proved as an effect on the stored uid, not as the error message returned."),
+ "C10": ("proof", "Plugin-level Release, unbind and the resync pass: whenever they free an IP whose stored node is non-empty and a cloud provider is configured, the provider has acknowledged the unassign of that IP before (ghost ProvNode), and only that IP is unassigned (unbind: every IP of the key that is freed, re-keyed or loses its node has been unassigned first); allocateIP assigns IPs only to the node being bound; cloudProviderAssignIP/UnAssignIP report success only for an acknowledged reply.",
+         "Cloud provider behaviour assumed (pkg/ipam/cloudprovider/zz_contracts_verif.go). 'Not assigned to a second node while still assigned to another' across calls is a history property: only the per-call ordering is proved."),
  "C05": ("proof", "After every contracted crdIpam operation, on success and on failure, memory and the ghost Store agree on owner, policy, node and uid of every allocated IP and no free IP has an object (synced), relative to the store wrappers with nondeterministic failure (fault budget); multi-IP allocation with at most one failing API call.",
          "Crash points are not enumerated; ConfigurePool's reload-from-store part is only partially under contract."),
  "C06": ("proof", "Bind side: AllocateInSubnet hands out only an IP that was free and whose pool lists the node subnet, and returns ErrNoEnoughIP only if no free IP's pool lists it; toFloatingIPInfo copies mask, gateway, VLAN and node subnets of the entry's pool. "
@@ -38,9 +38,11 @@ CLAIMS = {
  "C08": ("proof", "AllocateInSubnetsAndIPRange proved against the property statement for every list of well-formed requested ranges and every table state: on success exactly one IP per range, the i-th inside the i-th range, free and routable from the node subnet before the call, pairwise distinct, in request order, published under the key, every other entry untouched; on any failure the tables are unchanged and, with at most one failing API call, the store is unchanged (rollback loop invariant). ByKeyAndIPRanges: one slot per range list, the reported IP lies in its own range list, and a slot is nil only if the key holds nothing in that list; getSubnet restricts the offer by every held IP.",
          "Client (API server) behaviour assumed as in pkg/ipam/client/.../zz_contracts_verif.go; net.IP.String modelled by uninterpreted functions with the stated axioms. Plugin-level allocateIP (annotation order) not under contract."),
  "C09": ("proof", "Allocation contracts hand out only entries of the unallocated table; handleFIPAssign moves only a free IP to allocated and refuses an allocated one; ConfigurePool builds disjoint tables whose free entries are blank.", "watch timing not decided."),
+ "C19": ("proof", "Lock discipline of the IPAM tables only: for every function of pkg/ipam/floatingip/ipam_crd.go, every read of crdIpam.allocatedFIPs / unallocatedFIPs / FloatingIPs (the field and the map/slice contents) happens with cacheLock held in some mode and every write with the write lock held, or on an object allocated by the very call (constructor). 162 lock obligations, all discharged. A race of ConfigurePool's deferred log was found (race detector replay) and repaired (fix: 28f1946).",
+         "This is NOT race freedom of the process: only the three declared guarded fields of one file are covered; the other anchored files (plugin caches, crdkey, crdcache, cniutil, galaxy server, portmapping, policy) are not swept; publication of objects, goroutine creation and the happens-before of channels are not modelled; helper functions called under the lock carry the lock as a stated precondition."),
  "C18": ("proof", "Zero-annotation safety sweep (plus surface invariants as typeinv/requires): for every function of the listed files (pkg/utils/nets/ip.go, pkg/ipam/floatingip/{floatingip.go,ipam_crd.go}, pkg/utils/page/page.go, pkg/ipam/schedulerplugin/util/utils.go, pkg/api/k8s/k8s.go) that is inside the supported subset, every generated no-panic obligation is discharged for all inputs satisfying the stated surface invariant: nil dereference, index/slice bounds, nil-map write, failed type assertion, division by zero, explicit panic, signed 64-bit overflow, callee preconditions, and termination of loops that carry a measure. "
          "A decoder crash on a null nodeSubnets entry was found and repaired (fix: fed78c1).",
-         "Functions outside the subset are listed as UNDECIDED in the run output and under coverage.undecided_functions (channel sends in Collect/Describe, escaping locals in ConsumePort/ParsePodNetworkAnnotation). Other surfaces named by the property (HTTP handlers, CNI request parsing, policy sync) are not swept. Library callees are assumed not to panic on arguments satisfying their stated requires."),
+         "All 94 functions of these files are inside the subset at this commit (a function that leaves it is listed as UNDECIDED in the run output and under coverage.undecided_functions). Channel sends are treated as no-ops (blocking is not modelled); encoding/json decoding into a local yields an arbitrary well-formed value (containers may hold nil). C18 relies on range postconditions proved by C11/C20 clauses (tagged for both). Other surfaces named by the property (HTTP handlers, CNI request parsing, policy sync) are not swept. Library callees are assumed not to panic on arguments satisfying their stated requires."),
 }
 
 def main():
